@@ -97,6 +97,7 @@ def evalCT (ρ : Nat → Bool) : CT → Option Bool
   | .atom a _ => some (ρ a)
   | .exp as => some (as.any (fun p => ρ p.1))
   | .cidr as => some (as.any (fun p => ρ p.1))
+  | .nex a _ => some (!ρ a)
   | .not c => (evalCT ρ c).map (!·)
   | .and cs => match evalList ρ cs with | [] => none | bs => some (bs.all id)
   | .or cs => match evalList ρ cs with | [] => none | bs => some (bs.any id)
